@@ -48,6 +48,13 @@ def dispatchHandles : List String → Option (Obs × Option Obs)
   | ["hstress", _, _, _, _, _] =>
     let m : Obs := [("bad", "0"), ("dup", "0"), ("end", "0")]
     some (m, some m)
+  -- deterministic schedules of the instrumented real code: every schedule of every scenario must
+  -- end like the model says every interleaving ends (C20_refcount / _resolves / _removed_at_zero /
+  -- _quiescent / _unique): nothing to report
+  | "hsched" :: _ =>
+    let m : Obs := [("fail", "-"), ("bad", "0"), ("dup", "0"), ("leak", "0"), ("end", "0"),
+                    ("dead", "0"), ("live", "0"), ("panic", "")]
+    some (m, some m)
   -- C16: N goroutines on their own values from a cold start: no race, same results
   | ["race", _, _, _] =>
     let m : Obs := [("race", "0"), ("same", "1")]
